@@ -489,7 +489,9 @@ impl Config {
                             })?;
                         let base: u32 = subnet.network().into();
                         let addresses = addresses.get_or_insert_with(Vec::new);
-                        for i in 1..((1 << (32 - subnet.prefixlen)) - 1) {
+                        /* Every host offset except the network (0) and broadcast (all ones). */
+                        let hostmask = u32::MAX.checked_shr(subnet.prefixlen.into()).unwrap_or(0);
+                        for i in 1..hostmask {
                             addresses.push((base + i).into())
                         }
                     }
